@@ -1135,6 +1135,16 @@ impl DhcpService {
     pub fn verif_pool(&self) -> Arc<sync::Mutex<pool::Pool>> {
         self.pool.clone()
     }
+
+    /// The identifiers the receive loop passes to `handle_pkt` as this server's own.
+    pub async fn verif_own_serverids(&self) -> ServerIds {
+        self.own_serverids().await
+    }
+
+    /// What the receive loop does once a reply naming `si` as the server has been built.
+    pub async fn verif_learn_serverid(&self, si: net::Ipv4Addr) {
+        self.serverids.lock().await.insert(si);
+    }
 }
 
 #[test]
